@@ -22,6 +22,12 @@ type cron struct {
 	next  time.Time
 }
 
+// spool item: the job and the minute (c.next) it was spooled for
+type cronSpoolItem struct {
+	cj *cronJob
+	at time.Time
+}
+
 // internal job
 
 type cronJob struct {
@@ -54,9 +60,6 @@ func createCron(node gen.Node) *cron {
 			return
 		}
 		actionTime := time.Now().Truncate(time.Minute)
-		c.RLock()
-		spooledFor := c.next
-		c.RUnlock()
 		fired := make(map[*cronJob]bool)
 		for {
 
@@ -65,8 +68,15 @@ func createCron(node gen.Node) *cron {
 				// empty queue
 				break
 			}
-			cj := item.(*cronJob)
+			spooled := item.(cronSpoolItem)
+			cj := spooled.cj
 			if cj.disable == true {
+				continue
+			}
+			if actionTime.Equal(spooled.at) == false {
+				// spooled for another minute (late timer, clock step, or a job
+				// added/enabled while the previous minute was being processed):
+				// the job's spec was not checked against actionTime
 				continue
 			}
 			if fired[cj] == true {
@@ -74,12 +84,6 @@ func createCron(node gen.Node) *cron {
 				continue
 			}
 			fired[cj] = true
-
-			if actionTime.Equal(spooledFor) == false {
-				// the spool was filled for another minute (late timer, clock step):
-				// the job's spec was not checked against actionTime
-				continue
-			}
 
 			// check if actionTime is actually now:
 			// - no time adjustment happened,
@@ -253,7 +257,7 @@ func (c *cron) Info() gen.CronInfo {
 	info.Jobs = []gen.CronJobInfo{}
 
 	for item := c.spool.Item(); item != nil; item = item.Next() {
-		cj := item.Value().(*cronJob)
+		cj := item.Value().(cronSpoolItem).cj
 		if cj.disable == true {
 			continue
 		}
@@ -359,5 +363,5 @@ func (c *cron) scheduleJob(cj *cronJob) {
 	if cj.mask.IsRunAt(next) == false {
 		return
 	}
-	c.spool.Push(cj)
+	c.spool.Push(cronSpoolItem{cj: cj, at: c.next})
 }
